@@ -747,6 +747,11 @@ func (m *mappedFile) newCounter(name string) (v *atomic.Uint64, m1 *mappedFile, 
 	for {
 		// Determine where record should end, and grow file if needed.
 		limit := m.load32(m.hdrLen + limitOff)
+		if limit != 0 && limit < m.hdrLen+hashOff+4*numHash {
+			// A limit inside the header or the hash table is corrupt: a
+			// record placed there would destroy other counters' chains.
+			return nil, nil, errCorrupt
+		}
 		start, end = m.place(limit, name)
 		debugPrintf("place %s at %#x-%#x\n", name, start, end)
 		if int64(end) > int64(len(m.mapping.Data)) {
